@@ -1,4 +1,4 @@
-//@ unit u2_verdicts props C01 C02 C08 C12 also C06 C10
+//@ unit u2_verdicts props C01 C02 C08 C12 also C06 C10 C11 C09
 // Unit U2: the verdict functions of src/database/authorisation_service.rs.
 // The room decision kernel (unit u1_room) is visible here only through the contracts proved there.
 #![feature(allocator_api)]
@@ -458,6 +458,43 @@ pub closed spec fn deletion_ok(ra: RoomAuthorisations, old_q: DeletionQuery, new
     && (forall|k: int| old_q.edge_log@.len() <= k < new_q.edge_log@.len() ==> edge_log_ok(ra, #[trigger] new_q.edge_log@[k], t))
 }
 
+/// the deletion record `e` is the record of the deleted row `nd` / of the removed reference `ed`
+pub open spec fn node_rec_of(e: NodeDeletionEntry, nd: NodeDelete) -> bool { nd.node.room_id is Some && e.room_id == nd.node.room_id->Some_0 && e.id == nd.node.id && e.mdate == nd.node.mdate }
+pub open spec fn edge_rec_of(e: EdgeDeletionEntry, ed: EdgeDelete) -> bool { ed.room_id is Some && e.room_id == ed.room_id->Some_0 && e.src == ed.edge.src && e.dest == ed.edge.dest && e.label@ == ed.edge.label@ && e.cdate == ed.edge.cdate }
+/// (the `exists` is hidden in a spec function: DESIGN section 10)
+pub open spec fn node_recorded(nd: NodeDelete, log: Seq<NodeDeletionEntry>, from: int) -> bool { exists|k: int| from <= k < log.len() && node_rec_of(#[trigger] log[k], nd) }
+pub open spec fn edge_recorded(ed: EdgeDelete, log: Seq<EdgeDeletionEntry>, from: int) -> bool { exists|k: int| from <= k < log.len() && edge_rec_of(#[trigger] log[k], ed) }
+/// the first `n` rows (references) named for deletion that belong to a room have their record in the log, past position `from`
+pub open spec fn nodes_recorded(nodes: Seq<NodeDelete>, n: int, log: Seq<NodeDeletionEntry>, from: int) -> bool {
+    forall|i: int| 0 <= i < n && (#[trigger] nodes[i]).node.room_id is Some ==> node_recorded(nodes[i], log, from)
+}
+pub open spec fn edges_recorded(edges: Seq<EdgeDelete>, n: int, log: Seq<EdgeDeletionEntry>, from: int) -> bool {
+    forall|i: int| 0 <= i < n && (#[trigger] edges[i]).room_id is Some ==> edge_recorded(edges[i], log, from)
+}
+broadcast proof fn lemma_nodes_recorded_push(nodes: Seq<NodeDelete>, n: int, log: Seq<NodeDeletionEntry>, from: int, e: NodeDeletionEntry)
+    requires #[trigger] nodes_recorded(nodes, n, log, from), 0 <= from <= log.len(), 0 <= n < nodes.len(),
+    ensures nodes_recorded(nodes, n, #[trigger] log.push(e), from), node_rec_of(e, nodes[n]) ==> nodes_recorded(nodes, n + 1, log.push(e), from),
+{
+    let l2 = log.push(e);
+    assert forall|i: int| 0 <= i < n && (#[trigger] nodes[i]).node.room_id is Some implies node_recorded(nodes[i], l2, from) by {
+        assert(node_recorded(nodes[i], log, from));
+        let k = choose|k: int| from <= k < log.len() && node_rec_of(#[trigger] log[k], nodes[i]);
+        assert(l2[k] == log[k]);
+    }
+    if node_rec_of(e, nodes[n]) { assert(l2[log.len() as int] == e); assert(node_recorded(nodes[n], l2, from)); }
+}
+broadcast proof fn lemma_edges_recorded_push(edges: Seq<EdgeDelete>, n: int, log: Seq<EdgeDeletionEntry>, from: int, e: EdgeDeletionEntry)
+    requires #[trigger] edges_recorded(edges, n, log, from), 0 <= from <= log.len(), 0 <= n < edges.len(),
+    ensures edges_recorded(edges, n, #[trigger] log.push(e), from), edge_rec_of(e, edges[n]) ==> edges_recorded(edges, n + 1, log.push(e), from),
+{
+    let l2 = log.push(e);
+    assert forall|i: int| 0 <= i < n && (#[trigger] edges[i]).room_id is Some implies edge_recorded(edges[i], l2, from) by {
+        assert(edge_recorded(edges[i], log, from));
+        let k = choose|k: int| from <= k < log.len() && edge_rec_of(#[trigger] log[k], edges[i]);
+        assert(l2[k] == log[k]);
+    }
+    if edge_rec_of(e, edges[n]) { assert(l2[log.len() as int] == e); assert(edge_recorded(edges[n], l2, from)); }
+}
 //@ extract src/database/authorisation_service.rs :: impl RoomAuthorisations / fn validate_deletion
 //@ result r
 //@ attr #[verifier::loop_isolation(false)]
@@ -466,6 +503,7 @@ pub closed spec fn deletion_ok(ra: RoomAuthorisations, old_q: DeletionQuery, new
             assert(<Vec<u8> as PartialEqSpec<Vec<u8>>>::obeys_eq_spec());
             assert(<[u8; 16] as PartialEqSpec<[u8; 16]>>::obeys_eq_spec());
         }
+        broadcast use {lemma_nodes_recorded_push, lemma_edges_recorded_push};
 //@ rewrite E17 "(?<=for node in )&mut deletion_query\.updated_nodes(?= \{)" => "deletion_query.updated_nodes.iter_mut()" x1
 //@ loop "for node in &mut deletion_query.updated_nodes" iter itu
             invariant
@@ -475,6 +513,7 @@ pub closed spec fn deletion_ok(ra: RoomAuthorisations, old_q: DeletionQuery, new
                 forall|i: int| 0 <= i < old(deletion_query).nodes@.len() ==> node_delete_ok(*self, #[trigger] old(deletion_query).nodes@[i], now),
                 forall|k: int| old(deletion_query).node_log@.len() <= k < deletion_query.node_log@.len() ==> node_log_ok(*self, #[trigger] deletion_query.node_log@[k], now),
                 deletion_query.node_log@.len() >= old(deletion_query).node_log@.len(),
+                nodes_recorded(deletion_query.nodes@, deletion_query.nodes@.len() as int, deletion_query.node_log@, old(deletion_query).node_log@.len() as int),
                 // [rewritten_rows_resigned_by_caller]{C06,C01} every source row re-dated by a reference removal is re-signed: its stated author becomes the caller
                 forall|i: int| 0 <= i < itu.index@ ==> final(#[trigger] itu.seq()[i]).verifying_key@ == self.signing_key.spec_vk(),
 //@ insert before-stmt "deletion_query.node_log.push(log_entry)"
@@ -493,6 +532,8 @@ pub closed spec fn deletion_ok(ra: RoomAuthorisations, old_q: DeletionQuery, new
                 forall|i: int| 0 <= i < it.index@ ==> node_delete_ok(*self, #[trigger] deletion_query.nodes@[i], now),
                 forall|k: int| old(deletion_query).node_log@.len() <= k < deletion_query.node_log@.len() ==> node_log_ok(*self, #[trigger] deletion_query.node_log@[k], now),
                 deletion_query.node_log@.len() >= old(deletion_query).node_log@.len(),
+                // [deleted_rows_recorded_so_far]{C11,C09,C01}
+                nodes_recorded(deletion_query.nodes@, it.index@ as int, deletion_query.node_log@, old(deletion_query).node_log@.len() as int),
 //@ loop "for edge in &deletion_query.edges" iter it
             invariant
                 deletion_query.nodes == old(deletion_query).nodes, deletion_query.edges == old(deletion_query).edges,
@@ -500,11 +541,19 @@ pub closed spec fn deletion_ok(ra: RoomAuthorisations, old_q: DeletionQuery, new
                 forall|i: int| 0 <= i < it.index@ ==> edge_delete_ok(*self, #[trigger] deletion_query.edges@[i], now),
                 forall|k: int| old(deletion_query).edge_log@.len() <= k < deletion_query.edge_log@.len() ==> edge_log_ok(*self, #[trigger] deletion_query.edge_log@[k], now),
                 deletion_query.edge_log@.len() >= old(deletion_query).edge_log@.len(),
+                deletion_query.node_log == node_log_after,
+                // [removed_references_recorded_so_far]{C11,C09,C01}
+                edges_recorded(deletion_query.edges@, it.index@ as int, deletion_query.edge_log@, old(deletion_query).edge_log@.len() as int),
+//@ insert before-stmt "for edge in &deletion_query.edges"
+        let ghost node_log_after = deletion_query.node_log;
 //@ spec
         requires rooms_wf(*self),
         ensures
             // [deletion_needs_right]{C01,C12} Ok only if no system entity is named and, for some validation date t, every row and reference of a room may be deleted by the caller (own-rows right for what the caller authored, all-rows right otherwise, at t), the source row of every removed reference may be changed by the caller at the date signed for it, and every record produced is signed by the caller and dated t
             r is Ok ==> exists|t: i64| deletion_ok(*self, *old(deletion_query), *final(deletion_query), t),
+            // [every_deleted_row_and_removed_reference_gets_its_record]{C11,C09,C01} an accepted deletion produces, for every row of a room it deletes and every reference of a room it removes, the signed deletion record of exactly that row (room, id, version) / that reference: the record is what makes the deletion reach the peers, stay deleted, and mark the day
+            r is Ok ==> nodes_recorded(old(deletion_query).nodes@, old(deletion_query).nodes@.len() as int, final(deletion_query).node_log@, old(deletion_query).node_log@.len() as int)
+                && edges_recorded(old(deletion_query).edges@, old(deletion_query).edges@.len() as int, final(deletion_query).edge_log@, old(deletion_query).edge_log@.len() as int),
             // [rewritten_rows_resigned]{C06,C01} every row rewritten by the deletion carries the caller as its stated author (it is re-signed by the caller)
             r is Ok ==> forall|i: int| 0 <= i < final(deletion_query).updated_nodes@.len() ==> (#[trigger] final(deletion_query).updated_nodes@[i]).verifying_key@ == self.signing_key.spec_vk(),
             // [deletion_frame] the rows named for deletion are not altered by validation
